@@ -59,7 +59,8 @@ def labels_partition(
 
     sites = list(hg.nodes)
     neighbs = collections.defaultdict(set)
-    max_edge_weight = max(winfo["edge_weights"])
+    # n.b. a (sub)graph of scalars or disconnected terms has no edges
+    max_edge_weight = max(winfo["edge_weights"], default=1.0)
     weights = {}
 
     # populate neighbor list and weights by edge weight
